@@ -398,6 +398,17 @@ func genExtracted(b *strings.Builder, root, authp, httpio *pkg) {
 		}
 		w("Definition newErrors_byCode_keys : list Z := [%s].", strings.Join(ks, "; "))
 	}
+	w("(* typed call path: positional skeletons (index / slice expressions, make sizes, encoding/json and reflect.Zero/New calls) *)")
+	w("Definition skeleton_register : list string := %s.", strList(positionalSkeleton(root, "handler", "register", []string{"NumIn", ".In", "json."})))
+	w("Definition skeleton_handle : list string := %s.", strList(positionalSkeleton(root, "handler", "handle", []string{"json.", "Decode", "UseNumber", "DisallowUnknownFields", "reflect.Zero", "reflect.New", "reflect.ValueOf"})))
+	w("Definition skeleton_handleRpcCall : list string := %s.", strList(positionalSkeleton(root, "rpcFunc", "handleRpcCall", []string{"json.", "Decode", "UseNumber", "reflect.New"})))
+	w("Definition skeleton_makeRpcFunc : list string := %s.", strList(positionalSkeleton(root, "client", "makeRpcFunc", []string{"NumIn", "NumOut", ".In", ".Out"})))
+	w("Definition decisions_makeRpcFunc : list string := %s.", strList(decisionOrder(root, "client", "makeRpcFunc")))
+	w("Definition decisions_register : list string := %s.", strList(decisionOrder(root, "handler", "register")))
+	w("Definition skeleton_processResponse : list string := %s.", strList(positionalSkeleton(root, "rpcFunc", "processResponse", []string{"reflect."})))
+	w("Definition skeleton_processError : list string := %s.", strList(positionalSkeleton(root, "rpcFunc", "processError", []string{"reflect."})))
+	w("Definition skeleton_processFuncOut : list string := %s.", strList(append(decisionOrder(root, "", "processFuncOut"), positionalSkeleton(root, "", "processFuncOut", []string{"Out", "NumOut"})...)))
+	w("Definition skeleton_param_marshal : list string := %s.", strList(append(decisionOrder(root, "param", "MarshalJSON"), positionalSkeleton(root, "param", "MarshalJSON", []string{"json."})...)))
 	w("(* keepalive *)")
 	w("Definition nextMessage_resets_before_read : bool := %s.", coqBool(callBefore(root, "nextMessage", "c.resetReadDeadline", "c.conn.NextReader")))
 	w("Definition ping_handler_answers_pong : bool := %s.", coqBool(pingHandlerPongs(root)))
@@ -878,6 +889,9 @@ func defaultOf(p *pkg, fn, field string) int64 {
 // decision skeleton of a function: type-switch case types and if/else-if conditions, in source order
 func decisionOrder(p *pkg, recv, fn string) []string {
 	fd := p.funcDecl(recv, fn)
+	if recv == "" {
+		fd = p.anyFunc(fn)
+	}
 	if fd == nil {
 		die("%s.%s not found", recv, fn)
 	}
@@ -885,6 +899,21 @@ func decisionOrder(p *pkg, recv, fn string) []string {
 	ast.Inspect(fd.Body, func(n ast.Node) bool {
 		switch v := n.(type) {
 		case *ast.TypeSwitchStmt:
+			for _, c := range v.Body.List {
+				cc := c.(*ast.CaseClause)
+				for _, t := range cc.List {
+					out = append(out, "case "+exprString2(t))
+				}
+				if cc.List == nil {
+					out = append(out, "default")
+				}
+			}
+		case *ast.SwitchStmt:
+			tag := ""
+			if v.Tag != nil {
+				tag = exprString2(v.Tag)
+			}
+			out = append(out, "switch "+tag)
 			for _, c := range v.Body.List {
 				cc := c.(*ast.CaseClause)
 				for _, t := range cc.List {
@@ -948,4 +977,95 @@ func localInit(p *pkg, recv, fn, name string) int64 {
 		die("local %s not found in %s", name, fn)
 	}
 	return val
+}
+
+// the positional skeleton of a function: every index / slice expression and make() size, and every call whose callee
+// mentions one of the given words, in source order (deduplicated)
+func positionalSkeleton(p *pkg, recv, fn string, words []string) []string {
+	var fd *ast.FuncDecl
+	if recv == "" {
+		fd = p.anyFunc(fn)
+	} else {
+		fd = p.funcDecl(recv, fn)
+	}
+	if fd == nil {
+		die("%s.%s not found", recv, fn)
+	}
+	var out []string
+	seen := map[string]bool{}
+	add := func(s string) {
+		if !seen[s] {
+			seen[s] = true
+			out = append(out, s)
+		}
+	}
+	ast.Inspect(fd.Body, func(n ast.Node) bool {
+		switch v := n.(type) {
+		case *ast.IndexExpr:
+			add(exprString3(v))
+		case *ast.SliceExpr:
+			add(exprString3(v))
+		case *ast.BinaryExpr:
+			if v.Op == token.ADD || v.Op == token.SUB {
+				add(exprString3(v))
+			}
+		case *ast.CallExpr:
+			s := exprString3(v.Fun)
+			if s == "make" {
+				add(exprString3(v))
+				return true
+			}
+			for _, w := range words {
+				if strings.Contains(s, w) {
+					add(exprString3(v))
+					break
+				}
+			}
+		}
+		return true
+	})
+	return out
+}
+
+// exprString2 plus slices, composite types and function literals
+func exprString3(e ast.Expr) string {
+	switch v := e.(type) {
+	case *ast.SliceExpr:
+		lo, hi := "", ""
+		if v.Low != nil {
+			lo = exprString3(v.Low)
+		}
+		if v.High != nil {
+			hi = exprString3(v.High)
+		}
+		return exprString3(v.X) + "[" + lo + ":" + hi + "]"
+	case *ast.IndexExpr:
+		return exprString3(v.X) + "[" + exprString3(v.Index) + "]"
+	case *ast.ArrayType:
+		return "[]" + exprString3(v.Elt)
+	case *ast.BinaryExpr:
+		return exprString3(v.X) + " " + v.Op.String() + " " + exprString3(v.Y)
+	case *ast.CallExpr:
+		var as []string
+		for _, a := range v.Args {
+			as = append(as, exprString3(a))
+		}
+		return exprString3(v.Fun) + "(" + strings.Join(as, ", ") + ")"
+	case *ast.SelectorExpr:
+		return exprString3(v.X) + "." + v.Sel.Name
+	case *ast.ParenExpr:
+		return "(" + exprString3(v.X) + ")"
+	case *ast.UnaryExpr:
+		return v.Op.String() + exprString3(v.X)
+	case *ast.StarExpr:
+		return "*" + exprString3(v.X)
+	case *ast.TypeAssertExpr:
+		if v.Type == nil {
+			return exprString3(v.X) + ".(type)"
+		}
+		return exprString3(v.X) + ".(" + exprString3(v.Type) + ")"
+	case *ast.MapType:
+		return "map[" + exprString3(v.Key) + "]" + exprString3(v.Value)
+	}
+	return exprString2(e)
 }
